@@ -235,6 +235,14 @@ Fixpoint bind_params (params : list (str * option (list vtok))) (args : list (li
 Definition arguments_value (args : list (list str)) : list vtok :=
   flat_map (fun a => map VT a ++ [VT blank_tok]) args.
 
+(* Mixin.parse_args: @arguments is the list of the arguments written at the call; when none is written it is made of the default
+   values of the parameters *)
+Definition arguments_of (params : list (str * option (list vtok))) (args : list (list str)) : list vtok :=
+  match args with
+  | [] => flat_map (fun pd => match snd pd with Some d => d ++ [VT blank_tok] | None => [] end) params
+  | _ => arguments_value args
+  end.
+
 Section Calls.
   Variable defs : list mixin_def.
   Fixpoint eval_body (callf : call_handler) (parent : option (list part)) (sc : scope) (body : list node) : outcome (list obj * scope) :=
@@ -253,7 +261,7 @@ Section Calls.
         if str_eqb (m_name d) name then
           match bind_params (m_params d) args sc with
           | Some sc1 =>
-              let sc2 := add_variable $"@arguments" (arguments_value args) sc1 in
+              let sc2 := add_variable $"@arguments" (arguments_of (m_params d) args) sc1 in
               match m_body d with
               | [] => try_defs callrec name args parent sc rest
               | body => eval_body callrec parent sc2 body
